@@ -80,7 +80,9 @@ FOCUS = ["nl_max=1", "nl_max=2", "nl_remove_extra_newlines=1", "nl_remove_extra_
          "nl_after_multiline_comment=true", "nl_if_brace=add", "nl_if_brace=remove", "nl_brace_else=remove", "nl_else_brace=add", "nl_fdef_brace=force",
          "nl_after_return=true", "nl_before_if=force", "nl_after_if=force", "nl_before_return=true", "pp_indent=add", "pp_space_after=force", "sp_before_semi=force",
          "indent_cmt_with_tabs=true", "indent_col1_comment=true", "nl_func_var_def_blk=1", "nl_var_def_blk_end_func_top=2", "nl_after_func_body=3",
-         "nl_comment_func_def=2", "nl_multi_line_define=true", "nl_collapse_empty_body=true", "nl_create_if_one_liner=true", "nl_split_if_one_liner=true"]
+         "nl_comment_func_def=2", "nl_multi_line_define=true", "nl_collapse_empty_body=true", "nl_create_if_one_liner=true", "nl_split_if_one_liner=true",
+         "mod_enum_last_comma=add", "mod_enum_last_comma=remove", "mod_enum_last_comma=add", "mod_full_brace_if_chain=1", "mod_case_brace=remove", "mod_full_paren_if_bool=true",
+         "mod_full_brace_function=add", "mod_int_long=add", "mod_sort_using=true"]
 
 # (name, config lines, OFF marker line builder, ON marker line builder, enabling text for the lexer model or None)
 FLAVORS = [
@@ -152,10 +154,16 @@ def build_case(r, idx, label):
             src.insert(k, "")
             k += 1
         k += 1
+    has_enum = name != "pragma" and r.random() < 0.25
+    if has_enum:
+        src = ["enum e {", "  EA,", "  EB%s" % r.choice(["", ","]), "};", ""] + src
     nreg = 1 if name == "pragma" else r.randint(1, 3)
     positions = sorted(r.sample(range(0, len(src) + 1), min(nreg, len(src) + 1)), reverse=True)
     where = r.random()
-    if where < 0.1:
+    if has_enum and 3 not in positions:
+        positions[-1] = r.choice([2, 3])        # a region in front of the last enumerator / of the enum's closing brace
+        positions.sort(reverse=True)
+    elif where < 0.1:
         positions[-1] = 0                       # region at the very start of the file
     unterminated = r.random() < 0.12
     if unterminated:
